@@ -106,7 +106,6 @@ def case_key(c):
 
 def run_sd(c):
     """Execute the real optimiser once; returns the recording as numpy arrays."""
-    import torch
     from seqm.MolecularDynamics import Geometry_Optimization_SD
 
     names, pad, pat = SYSTEMS[c["system"]]
@@ -457,6 +456,7 @@ def describe(c, prob, state):
 
 
 def run(chk, tier, seed):
+    B.freeze_code()
     long_cases, cap_long = long_lattice(tier, seed)
     if os.environ.get("C20_DEV"):
         long_cases = [c for c in long_cases if c["alpha"] >= 5e-3]
